@@ -83,6 +83,16 @@ class Lin(_Base):
         return out
 
 
+class LinTied(_Base):
+    """Coarsely quantised linear decision function: many exact ties between targets and decoys."""
+
+    def decision_function(self, X):
+        X = np.asarray(X, dtype=np.float64)
+        out = np.round(self.w * X[:, self.feat] * 2.0) / 2.0
+        _emit(self.log, (self._token(), "predict", X[:, -1].astype(np.int64).copy(), out.copy()))
+        return out
+
+
 class Cubic(_Base):
     """A monotone non-linear decision function."""
 
